@@ -19,6 +19,7 @@ A case is a slot setting and a list of ops, each preceded by a virtual delay:
                              these (status UNKNOWN = no such account); the server reports it (GetUserStatus) iff the
                              client currently has u on its watch list (AddUser sent, RemoveUser not)
     ['privList', [u..], dt]  the server sends the list of privileged users
+    ['peerEvent', 'closed'|'connected', dt]   a peer connection changes state (says nothing about users; not a model op)
     dt = -1 (not for started / finish / failX / backToQueue): the op follows the previous one within the same loop step
     ['abortRace', k, dt]     abort(k) runs as its own task while, in the same step, a message about k's user (the truth once
                              more) requests a cycle: the cycle runs while abort waits for the task it cancelled
@@ -99,6 +100,15 @@ async def _perform(rig, body: list) -> str:
         return 'ok'
     if kind == 'privList':
         await rig.server.privileged_list([_user(u) for u in body[1]])
+        return 'ok'
+    if kind == 'peerEvent':
+        # something that happens all the time and says nothing about users: a peer connection opens / closes
+        from aioslsk.events import ConnectionStateChangedEvent
+        from aioslsk.network.connection import ConnectionState, CloseReason
+        from vlib.xferrig import FakeConn
+        st = ConnectionState.CLOSED if body[1] == 'closed' else ConnectionState.CONNECTED
+        await rig.bus.emit(ConnectionStateChangedEvent(FakeConn(rig, 'somebody'), st,
+                                                       CloseReason.EOF if body[1] == 'closed' else None))
         return 'ok'
     k = body[1]
     if k >= len(rig.transfers):
@@ -294,7 +304,7 @@ def _script(case: dict, impl: dict) -> tuple[list[str], list[str]]:
                 obs.append('op ok')
             elif e[0] == 'op':
                 body = case['ops'][e[1]][:-1]
-                if body[0] in ('wait', 'setUser', 'privList'):       # logged by their effects
+                if body[0] in ('wait', 'setUser', 'privList', 'peerEvent'):       # logged by their effects / no effect
                     continue
                 lines.append(_op_line(body))
                 obs.append(f'op {e[2]}')
@@ -686,12 +696,12 @@ def _gen_case(rng: random.Random, max_ops: int = 12) -> dict:
                 m.set_user(u, st, fr, pr)
     n = rng.randint(6 if contended else 4, max_ops)
     weights = {'addUpload': 26, 'started': 12, 'finish': 10, 'failX': 5, 'backToQueue': 8, 'requeue': 4, 'apiQueue': 3,
-               'abort': 6, 'abortRace': 3, 'setSlots': 6, 'setUser': 10, 'privList': 2, 'addDownload': 2, 'wait': 6}
+               'abort': 6, 'abortRace': 3, 'setSlots': 6, 'setUser': 10, 'privList': 2, 'peerEvent': 2, 'addDownload': 2, 'wait': 6}
     if contended:
         # keep the slots turning over: completions / fall-backs / aborts free slots between cycles, arrivals and rank
         # changes re-order the waiting users, the limit moves while uploads are active
         weights = {'addUpload': 14, 'started': 16, 'finish': 16, 'failX': 7, 'backToQueue': 12, 'requeue': 5, 'apiQueue': 3,
-                   'abort': 6, 'abortRace': 7, 'setSlots': 7, 'setUser': 9, 'privList': 2, 'addDownload': 1, 'wait': 5}
+                   'abort': 6, 'abortRace': 7, 'setSlots': 7, 'setUser': 9, 'privList': 2, 'peerEvent': 2, 'addDownload': 1, 'wait': 5}
     if kind_profile == 'contention':
         weights.update({'addUpload': weights['addUpload'] + 12, 'setUser': 14})
     elif kind_profile == 'limits':
@@ -744,6 +754,8 @@ def _gen_case(rng: random.Random, max_ops: int = 12) -> dict:
                 v = max(0, min(4, m.slots + rng.choice([-1, -1, 1, 1, 2])))
             ops.append(['setSlots', v, dt])
             m.slots = v
+        elif kind == 'peerEvent':
+            ops.append(['peerEvent', rng.choice(['closed', 'closed', 'connected']), dt])
         elif kind == 'privList':
             pl = {u for u in range(nusers) if m.truth(u)[2]}
             pl ^= {rng.randrange(nusers)}
@@ -957,7 +969,8 @@ class C05(Property):
             'succeeds / is refused / falls back to the queue at one of 5 stages, upload completes / fails, peer re-queue, '
             'API queue, abort (profile `tracking`: preferably one of several uploads of a user that are apart in the list), '
             'abort racing a cycle, limit change (mostly by one step while uploads are active), change of a user on the '
-            'server (reported iff the client watches the user) + friend list, privileged list, each preceded by a virtual '
+            'server (reported iff the client watches the user) + friend list, privileged list, a peer connection opening / '
+            'closing, two events within one loop step (30 % after an API-level op), each preceded by a virtual '
             'delay from {0, 0.02, 0.05 (= the management timer), 0.1, 0.3} s; 12 % of the cases run on a slow server '
             'connection (answer to the tracking request after 0.01..0.2 s or never; monitor only); management cycles are run '
             'by the real job and logged where they happen; derived from VERIF_SEED. A case is non-trivial when at least one '
